@@ -289,6 +289,8 @@ int main(int argc, char **argv) {
     const char *out = NULL, *streams = "pipe,app", *policy = "each", *prefill = "00", *ptsmode = "seq";
     int         n = 10, timeout_s = 120, scribble = 0, stop_after = -1, trace_on = 0, send_eos = 1, hdr = 1;
     int         skip_init = 0;
+    const char *stats_out = NULL, *stats_in = NULL;
+    void *      stats_buf = NULL;
     uint32_t    pt_seed = 0;
     int         pt_pm = 0, pt_us = 0, pt_target = 0;
     unsigned long role_lo = 0, role_hi = 0;
@@ -320,6 +322,8 @@ int main(int argc, char **argv) {
         else if (!strcmp(a, "--no-eos")) send_eos = 0;
         else if (!strcmp(a, "--no-header")) hdr = 0;
         else if (!strcmp(a, "--skip-init")) skip_init = 1;
+        else if (!strcmp(a, "--stats-out")) stats_out = NEXT;   /* first pass: rc_firstpass_stats_out = 1, statistics written to this file */
+        else if (!strcmp(a, "--stats-in")) stats_in = NEXT;     /* second pass: rc_twopass_stats_in read from this file */
         else if (!strcmp(a, "--timeout")) timeout_s = atoi(NEXT);
         else { fprintf(stderr, "unknown option %s\n", a); return 2; }
     }
@@ -371,6 +375,19 @@ int main(int argc, char **argv) {
     cfg->encoder_bit_depth = (uint32_t)g_bits;
     for (int i = 0; i < nsets; i++)
         if (apply_set(cfg, sets[i])) { fprintf(stderr, "bad --set %s\n", sets[i]); return 2; }
+    if (stats_out)
+        cfg->rc_firstpass_stats_out = EB_TRUE;
+    if (stats_in) {
+        FILE *sf = fopen(stats_in, "rb");
+        if (!sf) { fprintf(stderr, "cannot read %s\n", stats_in); return 2; }
+        fseek(sf, 0, SEEK_END);
+        long ssz = ftell(sf);
+        fseek(sf, 0, SEEK_SET);
+        cfg->rc_twopass_stats_in.buf = malloc(ssz > 0 ? (size_t)ssz : 1);
+        cfg->rc_twopass_stats_in.sz  = fread(cfg->rc_twopass_stats_in.buf, 1, (size_t)ssz, sf);
+        stats_buf                    = cfg->rc_twopass_stats_in.buf;
+        fclose(sf);
+    }
     g_recon_on = (int)cfg->recon_enabled;
     dump_cfg(g_ev, "Cfg", cfg);
     fprintf(g_ev, "{\"ev\":\"Run\",\"w\":%d,\"h\":%d,\"bits\":%d,\"n\":%d,\"content\":\"%s\",\"cseed\":%u,\"policy\":\"%s\",\"stride_extra\":%d,\"pad\":%d,\"scribble\":%d,\"prefill\":\"%s\",\"perturb\":[%u,%d,%d]}\n",
@@ -503,6 +520,20 @@ int main(int argc, char **argv) {
         }
         drained = 1;
     }
+    if (stats_out && drained) {
+        SvtAv1FixedBuf fp;
+        memset(&fp, 0, sizeof fp);
+        g_phase        = "get_stream_info";
+        EbErrorType sr = svt_av1_enc_get_stream_info(g_h_enc, SVT_AV1_STREAM_INFO_FIRST_PASS_STATS_OUT, &fp);
+        fprintf(g_ev, "{\"ev\":\"FirstPassStats\",\"rc\":%d,\"size\":%llu}\n", (int)sr, (unsigned long long)fp.sz);
+        if (sr == EB_ErrorNone && fp.buf) {
+            FILE *sf = fopen(stats_out, "wb");
+            if (sf) {
+                fwrite(fp.buf, 1, (size_t)fp.sz, sf);
+                fclose(sf);
+            }
+        }
+    }
     fprintf(g_ev, "{\"ev\":\"Drained\",\"ok\":%d,\"sent\":%d,\"pkts\":%d,\"recons\":%d,\"err\":%d}\n", drained, g_sent, g_pkts, g_recons, g_err);
     fflush(g_ev);
     fflush(g_pk);
@@ -531,6 +562,7 @@ int main(int argc, char **argv) {
     }
     fclose(g_ev);
     fclose(g_pk);
+    free(stats_buf); /* the recorder's own copy of the first-pass statistics */
     vrt_trace_close();
     return g_err ? 6 : 0;
 }
